@@ -693,7 +693,7 @@ def _record_build(sub):
 def drv_build(ctx: Ctx, sub: SubCheck):
     names = list(variants())
     parts = ctx.pick(2, 4)  # several independently seeded runs per variant: evens out the 16 workers
-    n = ctx.pick(400, 5600) // parts
+    n = ctx.pick(400, 5000) // parts
 
     def work(item, t: Tally):
         name, part = item
@@ -1016,7 +1016,7 @@ def oracle_decode(case):
 def drv_decode(ctx: Ctx, sub: SubCheck):
     names = list(decoders())
     parts = ctx.pick(2, 4)
-    n = ctx.pick(1100, 20000) // parts
+    n = ctx.pick(1100, 18000) // parts
 
     def rec(c, t: Tally):
         out = _LAST.get("outcome", "?")
@@ -1125,7 +1125,7 @@ def drv_atheris(ctx: Ctx, sub: SubCheck):
         ctx.tally.notes.append("atheris not importable: coverage-guided campaign skipped (Hypothesis sub-checks only)")
         return
     runs = int(os.environ.get("VP_ATHERIS_RUNS", "1500000"))
-    max_time = int(os.environ.get("VP_ATHERIS_TIME", "150"))
+    max_time = int(os.environ.get("VP_ATHERIS_TIME", "120"))
     n_proc = 4
     names = list(decoders())
     with tempfile.TemporaryDirectory(prefix="vp-c03-atheris-") as tmp:
